@@ -331,6 +331,10 @@ func randomDef(r *rng, k streamKnobs, local byte) defn {
 					bt := allBase[r.intn(len(allBase))]
 					pos := r.intn(len(d.fields) + 1)
 					nf := fdef{byte(n), byte(btSize[bt] * (1 + r.intn(2))), bt}
+					if r.chance(15) {
+						// the one field definition of size 0 the decoder accepts: an empty string
+						nf = fdef{byte(n), 0, 0x07}
+					}
 					d.fields = append(d.fields[:pos], append([]fdef{nf}, d.fields[pos:]...)...)
 					break
 				}
